@@ -63,7 +63,7 @@ def multikey_gens():
 
 
 def conc_scenarios():
-    sc = ["counter", "register", "setnx"]
+    sc = ["counter", "register", "setnx", "expiry", "rearm"]
     if _opt("execgen_list", "ListGen"):
         sc.append("queue")
     if _opt("execgen_set", "set_cmd"):
